@@ -280,7 +280,7 @@ Fixpoint walk (bl g : list nat) (fuel cur : nat) : option bool :=
     if memb cur bl then
       match subject cur with
       | None => Some false
-      | Some s => if memb s g then Some true else walk bl g f s
+      | Some s => if memb s g && manifest s then Some true else walk bl g f s
       end
     else Some false
   end.
